@@ -201,6 +201,69 @@ def direct_tcpip(nopf: bool, cert: int, po: int, hi: int, pi: int, app: bool) ->
     return owner.asked == [('connect', host, port)]
 
 
+def local_forward_dest(lp: int, dp: int, same_host: bool, allow: bool) -> bool:
+    """forward_local_port (also the server half of a remote forward, which
+    calls it with destination = listen address): every accepted connection is
+    opened towards exactly the configured destination - with a dynamic port (0)
+    that is the port the listener really got - and is registered under the
+    real listening port; a connection the accept handler refuses opens nothing."""
+    loop = MiniLoop()
+    saved = (C.asyncio, C.create_tcp_forward_listener)
+    C.asyncio = AsyncioShim(loop)
+    listen_port = pick([0, 8080], lp)
+    dest_port = pick([0, 9090, 8080], dp)
+    made = {}
+
+    class L:
+        def get_port(self):
+            return 4242 if listen_port == 0 else listen_port
+
+        def close(self):
+            pass
+
+    async def fake_listener(conn, loop_, coro, host, port):
+        made['coro'] = coro
+        made['listen'] = (host, port)
+        return L()
+
+    C.create_tcp_forward_listener = fake_listener
+    opened = []
+    try:
+        conn = mkconn(False, loop=loop)
+        conn._auth_complete = conn._kex_complete = True
+
+        async def create_connection(factory, dest_host, dest_port_, orig_host, orig_port):
+            opened.append((dest_host, dest_port_, orig_host, orig_port))
+            return None
+
+        conn.create_connection = create_connection
+        dest_host = 'lh' if same_host else 'dh'
+        res = {}
+
+        async def run():
+            res['listener'] = await conn.forward_local_port('lh', listen_port, dest_host, dest_port,
+                                                            (lambda h, p: allow))
+            try:
+                await made['coro'](None, 'client.example', 5555)
+                res['ok'] = True
+            except ChannelOpenError:
+                res['ok'] = False
+
+        loop.create_task(run())
+        loop.run(60)
+    finally:
+        C.asyncio, C.create_tcp_forward_listener = saved
+    if loop.exceptions or 'ok' not in res:
+        return False
+    real_listen = 4242 if listen_port == 0 else listen_port
+    real_dest = real_listen if dest_port == 0 else dest_port
+    if list(conn._local_listeners) != [('lh', real_listen)]:
+        return False
+    if not allow:
+        return res['ok'] is False and opened == []
+    return res['ok'] is True and opened == [(dest_host, real_dest, 'client.example', 5555)]
+
+
 def tcpip_forward(nopf: bool, cert: int, app: bool, port: int) -> bool:
     """tcpip-forward (remote listen) request: a listener is created iff key
     options, certificate and application all permit it; the reply is SUCCESS
@@ -349,6 +412,9 @@ OBLIGATIONS = [
        functions=[C.SSHServerConnection._process_direct_tcpip_open, C.SSHServerConnection.check_key_permission,
                   C.SSHServerConnection.check_certificate_permission],
        bounds='no-port-forwarding or not x 4 certificate option sets x 4 permitopen lists (incl. * port) x 2 hosts x 3 ports x application verdict'),
+    Ob('local_forward_dest', local_forward_dest, sym=dict(lp=R(0, 1), dp=R(0, 2), same_host=B, allow=B), timeout=150,
+       functions=[C.SSHConnection.forward_local_port],
+       bounds='listen port {dynamic, fixed} x destination port {dynamic = listening port, fixed, equal to the listen port} x same/different host x accept handler verdict; one accepted connection'),
     Ob('tcpip_forward', tcpip_forward, sym=dict(nopf=B, cert=R(0, 3), app=B, port=R(0, 1)), timeout=200,
        functions=[C.SSHServerConnection._process_tcpip_forward_global_request, C.SSHServerConnection._finish_port_forward,
                   C.SSHConnection._cleanup],
